@@ -20,11 +20,11 @@ BOUND = ("distributions: Uniform on 5 intervals, Triangle on 5 (interval, peak) 
          "and two finite intervals; d in {1,2} (d=2: equal intervals where the two dimensions carry the same distribution description, plus one "
          "dedicated family with the same description on different intervals); boundary flag on/off where the support allows (infinite ends: off); "
          "refinement-tree grids with 3..40 points per dimension grown by random / one-sided interval splitting (no interval refined more than 20 times), dyadic or weighted-midpoint, handed to "
-         "set_grid at <=4 stages of the growth; quick 120, thorough ~3000 weight cases. Moments: real SpatiallyAdaptiveSingleDimensions2 + "
+         "set_grid at <=4 stages of the growth; quick 70, thorough ~3000 weight cases (each: staged set_grid on tree A, tree B of the same size on the same objects, tree A again, brand-new objects). Moments: real SpatiallyAdaptiveSingleDimensions2 + "
          "ErrorCalculatorSingleDimVolumeGuided, d in {1,2} (thorough: also 3), lmax in {2,3}, max_evaluations in 8..160 (refinement histories of 0..6+ "
          "steps), 35% of the runs continued to a second stop with continue_adaptive_refinement, 4 model shapes g, random c, e, K; every stop is queried "
          "4-5 times (default path twice, node-based path, moment queries, default path again) and the stored solutions of all evaluations once; "
-         "quick 40 (+3 repeated at the end), thorough ~700 (+12) runs")
+         "quick 30 (+3 repeated at the end), thorough ~700 (+12) runs")
 RULE = (BOUND + "; a case is one (distribution set-up, boundary flag, tree seed) resp. one (set-up, model, c, e, K, refinement limits); non-trivial = at "
         "least 4 points in some dimension resp. at least one refinement beyond the initial scheme. Tolerances: weight sums abs tol_w = 1e-12 + 200*eps*max(1,|x|)/h_min (the code's w2 = (M1-M0*x1)/h amplifies the rounding of the moments by 1/h; "
         "1e-12..1e-8 in this universe); uniform weights rel 1e-9 + tol_w; "
@@ -526,9 +526,9 @@ def run(ctx):
                 for fs in (0, 1):
                     weights_case(ctx, setup, tree, 12, fs, family="offset-peak-triangle")
     # weights / midpoints
-    nw = 120 if quick else 3000
+    nw = 70 if quick else 3000
     for i in range(nw):
-        if ctx.out_of_time(0.35):
+        if ctx.out_of_time(0.4):
             ctx.note("weight part cut short after %d cases" % i)
             break
         d = 1 if rng.random() < 0.6 else 2
@@ -538,7 +538,7 @@ def run(ctx):
         tree = "weighted" if infinite or rng.random() < 0.5 else "dyadic"
         weights_case(ctx, setup, tree, n, rng.randrange(10 ** 6))
     # moments
-    nm = 40 if quick else 700
+    nm = 30 if quick else 700
     first_cases = []
     _EARLIER.clear()
     for i in range(nm):
